@@ -10,6 +10,8 @@
 \* Modes:  html   HTML document, no namespaces       (lang, key case-insensitive, pragma, iframe boundary)
 \*         xhtml  XML document, every element XHTML  (lang, pragma, iframe boundary)
 \*         xml    XML document, no namespaces        (xml:lang, no pragma, an "iframe" is just an element)
+\*         xmlmix XML document whose root is in no namespace (so: not XHTML) around XHTML-namespaced elements: no pragma, and an XHTML
+\*                iframe element is just an element (the iframe boundary belongs to HTML / XHTML documents)
 \*         mixed  HTML-parser document with namespaces (html5lib style): XHTML elements, the generic
 \*                elements from position 3 on in a foreign namespace (xml:lang for them)
 EXTENDS CssDecl, TLC, Json, SequencesExt
@@ -38,6 +40,7 @@ NameAt(pos) == IF pos = 1 THEN HtmlN
                ELSE IF c.ip # 0 /\ pos = c.ip + 1 /\ c.inner # "none" THEN HtmlN
                ELSE Div
 NsAt(pos) == CASE c.mode \in {"html", "xml"} -> <<>>
+               [] c.mode = "xmlmix" -> IF pos = 1 THEN <<>> ELSE XHTML
                [] c.mode = "xhtml" -> XHTML
                [] c.mode = "mixed" -> IF NameAt(pos) = Div /\ pos >= 3 THEN Foreign ELSE XHTML
 HtmlishAt(pos) == c.mode = "html" \/ NsAt(pos) = XHTML
@@ -68,7 +71,7 @@ Cfgs == {x \in [mode : Modes, meta : Metas, ip : IframeAts, inner : Inners] :
             /\ (x.mode = "xhtml" /\ x.inner = "none") => ((x.meta # "none") = XhtmlMeta)}
 
 Init == /\ c \in Cfgs
-        /\ doc = EmptyDoc("doc", c.mode \in {"xml", "xhtml"})
+        /\ doc = EmptyDoc("doc", c.mode \in {"xml", "xhtml", "xmlmix"})
         /\ tip = 0 /\ n = 0
 Next == /\ n < MaxChain
         /\ \E ch \in LangChoices :
